@@ -27,6 +27,8 @@ file does not compile -> the check fails closed):
   + * << >> & |, == != < <= > >=, and / or / not, `is None`, len(), isinstance(), args[i]
 SKIPPED statements (the complete allow-list): docstrings, `pass`, `if _debug: ...` (no else branch).
 No call is on a skip list: every call must be one of the forms above.
+Dynamic dispatch: `tag.encode(pdu)` on a list element is taken to be Tag.encode; the translation aborts when a
+subclass of Tag / TagList in the module defines encode or decode, or when anything assigns to Tag.encode etc.
 
 Python ints are translated as N (the model's domain: tag fields are naturals); `-` is therefore not
 accepted.  Evaluation order is kept: side effects become binds in source order, and a value that was read
@@ -885,9 +887,42 @@ class Translator:
                 % (cname, mname, SRC_REL, fn.lineno, fn.end_lineno, sig['gen'], ' '.join(params), ' * '.join(rtys), body))
 
 
+def check_no_override(tree):
+    """the translated methods are the ones every Tag / TagList object runs: no subclass in the module may define
+    a method of the same name, and nothing may assign to Class.method outside the class body"""
+    names = {}
+    for cname, mname, _ in METHODS:
+        names.setdefault(cname, set()).add(mname)
+    classes = {n.name: n for n in tree.body if isinstance(n, ast.ClassDef)}
+
+    def derives(c, root, seen=()):
+        for b in c.bases:
+            if isinstance(b, ast.Name):
+                if b.id == root:
+                    return True
+                if b.id in classes and b.id not in seen and derives(classes[b.id], root, seen + (b.id,)):
+                    return True
+        return False
+    for root, ms in names.items():
+        for c in classes.values():
+            if c.name != root and derives(c, root):
+                for n in c.body:
+                    if isinstance(n, (ast.FunctionDef, ast.Assign)) and (
+                            (isinstance(n, ast.FunctionDef) and n.name in ms) or
+                            (isinstance(n, ast.Assign) and any(isinstance(t, ast.Name) and t.id in ms for t in n.targets))):
+                        raise Unsupported('line %d: subclass %s of %s overrides a translated method' % (n.lineno, c.name, root))
+    for n in ast.walk(tree):
+        targets = n.targets if isinstance(n, ast.Assign) else [n.target] if isinstance(n, (ast.AugAssign, ast.AnnAssign)) else []
+        for t in targets:
+            if (isinstance(t, ast.Attribute) and isinstance(t.value, ast.Name) and t.value.id in names
+                    and (t.attr in names[t.value.id] or t.attr == '__init__')):
+                raise Unsupported('line %d: assignment to %s.%s replaces a translated method' % (n.lineno, t.value.id, t.attr))
+
+
 def gen_tagfns():
     path = os.path.join(REPO, SRC_REL)
     tree = ast.parse(open(path).read())
+    check_no_override(tree)
     tr = Translator(tree)
     out = ['(* GENERATED by translator/gen_tagfns.py from %s — do not edit *)' % SRC_REL,
            'From Bac Require Import Base Tag PyLoops.', 'Open Scope N_scope.', '']
